@@ -94,9 +94,9 @@ func initPool(r *eng.Run) {
 		panic("harness: HAMT hash function not registered")
 	}
 	// width 8 => 3 bits per level
-	cA := findName("a", 18, 64, nil)                         // shares >= 6 levels with "a" at width 8 (4 at 16, 2 at 256, 1 at 1024)
-	cB := findName("a", 9, 12, map[string]bool{cA: true})    // exactly 3 levels
-	cC := findName("a", 6, 9, map[string]bool{cA: true})     // exactly 2 levels
+	cA := findName("a", 18, 64, nil)                      // shares >= 6 levels with "a" at width 8 (4 at 16, 2 at 256, 1 at 1024)
+	cB := findName("a", 9, 12, map[string]bool{cA: true}) // exactly 3 levels
+	cC := findName("a", 6, 9, map[string]bool{cA: true})  // exactly 2 levels
 	plain := "b"
 	for _, c := range []string{"b", "d", "e", "f", "g", "h"} { // a name in a different root bucket than "a" for widths 8..1024
 		if sharedBits("a", c) < 3 {
@@ -104,7 +104,7 @@ func initPool(r *eng.Run) {
 			break
 		}
 	}
-	t0 := unixfs.EmptyFileNode() // CIDv0, Tsize 6
+	t0 := unixfs.EmptyFileNode()              // CIDv0, Tsize 6
 	t1 := merkledag.NewRawNode([]byte("xyz")) // CIDv1 raw, 2 bytes longer CID, Tsize 3
 	targets = []ipld.Node{t0, t1}
 	for _, t := range targets {
@@ -372,17 +372,17 @@ func (c cfg) ruleSharded(m map[string]int) (bool, string) {
 // ---------------------------------------------------------------- the system under exploration
 
 type sys struct {
-	r        *eng.Run
-	c        cfg
-	cfgStr   string
-	dserv    ipld.DAGService
-	dir      uio.Directory
-	model    map[string]int
-	path     []string
-	poisoned bool
-	reloaded bool // a reload happened on this path
-	key      string
-	convertedNow bool // the last operation converted basic<->HAMT
+	r            *eng.Run
+	c            cfg
+	cfgStr       string
+	dserv        ipld.DAGService
+	dir          uio.Directory
+	model        map[string]int
+	path         []string
+	poisoned     bool
+	reloaded     bool // a reload happened on this path
+	key          string
+	convertedNow bool   // the last operation converted basic<->HAMT
 	wasHamt      bool   // the directory has been a HAMT at some point of this history
 	lostBy       string // operation and conversion in which the configured threshold disappeared
 }
